@@ -4,7 +4,7 @@ from props import common, generic, tree_common as tc
 
 def run(rep):
     return generic.run_generic(
-        rep, tc.TREE_FUNCS + tc.NAV_FUNCS + tc.MATCHER_FUNCS + tc.PASS_FUNCS + tc.JOINER_FUNCS,
+        rep, tc.TREE_FUNCS + tc.NAV_FUNCS + tc.OFFSET_FUNCS + tc.MATCHER_FUNCS + tc.PASS_FUNCS + tc.JOINER_FUNCS,
         structural=[tc.grouping_frame, tc.flatten_and_str, tc.identity_side_conditions],
         assumptions=['Inv (I1-I6, DESIGN 4.2) as a local invariant with ownership = the tree (methodology, DESIGN 3.3)',
                      '_group_matching (6 classes) and the nine simple passes are under contract: at every group_tokens call '
